@@ -68,7 +68,8 @@ func translate(pkgPatterns []string, outRootDir string, modDir string,
 		if err != nil {
 			fmt.Fprintln(os.Stderr, err.Error())
 			fmt.Fprintln(os.Stderr, red("could not write output"))
-			os.Exit(1)
+			// (the other packages are still written and reported)
+			someError = true
 		}
 	}
 	if someError {
